@@ -21,6 +21,7 @@ Definition action_name (refname : bytes) (a : action) : bytes :=
   | AEntry => pfx "commit:" RslShort
   | AReset => pfx "reset:" refname
   | ADelete => pfx "del:" refname
+  | ASetBase _ => pfx "set:" refname
   end.
 
 Definition is_fault_mark (t : bytes) : bool := has_prefix (bs "FAULT@") t.
